@@ -11,7 +11,9 @@ the code is OBSERVED here, per generated history:
   vs cells already in the heap), `np.shares_memory` is evaluated between every buffer of a new result cell and every
   buffer in the heap (aliasing = the aliased old cell is counted as reachable from the result);
 * results of operations whose signature says `copy` are mutated in place (every buffer, every mutable container, the
-  row labels buffer) and the pool is re-snapshotted (`mutate-the-result-then-re-snapshot`), then restored.
+  row labels buffer) and the pool is re-snapshotted (`mutate-the-result-then-re-snapshot`), then restored; results made
+  by deepcopy get two more probes: the cell objects inside object columns get a member (probe 2), and everything INSIDE
+  the cell objects and containers is edited at every depth (probe 3: record fields, nested lists, scalar members).
 
 The observation is sent to the Lean driver (`c14.check`), which evaluates the SAME definitions the theorems are stated
 against (`Spec.Effects.frameB`, `freshB`; `Model.Effects.within`, `run`).
@@ -37,7 +39,16 @@ RULE = ("histories of 1-10 operations over charts of the five games (0-12 hits, 
         "list of the pool, a cut-down list or a hand-made DataFrame, all snapshotted as arguments; lists are built from a frame, "
         "by `from_dict` or by `empty`+assignment; 45% of the steps take the newest compatible object of the pool, i.e. "
         "second-generation inputs; move targets are arbitrary or the list's current first/last offset, empty lists included; "
-        "Quaver notes carry 0-4 key sounds (names or {Sample, Volume} entries) in arbitrary order; the class-level list defaults of `_props` are cells of the heap from the start); distinct = distinct canonical JSON; non-trivial = "
+        "Quaver notes carry 0-4 key sounds in arbitrary order: names, {Sample, Volume} records as `QuaMap.read` hands them over, records "
+        "holding further lists / records, lists of lists (mutable state at depth 2-4 inside one cell); a third of the Quaver charts "
+        "reach the pool through `QuaMap.read` of their own text; every deepcopy-based result is changed in place at every depth — "
+        "cells replaced, cell lists appended to, every record field / nested element edited — and the whole pool re-observed; "
+        "the rest of the public surface of TimedList/HoldList/BpmList/Map/MapSet/ConvertBase/Pattern is drawn too: int/iloc/loc "
+        "indexing, iteration, from_dict (client dicts of columns or of rows), empty, df, column getters, to_numpy, describe, "
+        "first/last offsets, time_diff, len, repr, the five comparisons, head/tail_offset, current_bpm, snap_offsets, "
+        "to_timing_map, ave_bpm, cast (with the caller's mapping dict), m[Class]/m.hits/m.notes, metadata, describe, stack, "
+        "iteration/items/indexing of sets, write_file of the four writers (temporary directory), Pattern.v_mask/h_mask/len; "
+        "the class-level list defaults of `_props` are cells of the heap from the start); distinct = distinct canonical JSON; non-trivial = "
         "at least one call returned and its arguments held at least one non-empty frame")
 ASSUMPTIONS = [
     "effect signatures are observed, not proved: the theorems are about any behaviour within the table's signatures, the "
